@@ -38,7 +38,7 @@ from mc.core.report import digest
 logging.getLogger('falcon').setLevel(100)
 
 OPS = ['accept', 'accept_sub', 'accept_hdr', 'accept_proto', 'close', 'close3001', 'close999', 'close1005', 'send_text', 'send_data', 'send_data_buf',
-       'send_media', 'send_text_bytes', 'recv_text', 'recv_data', 'recv_media', 'raise403', 'raise_status', 'raise_value']
+       'send_media', 'send_media_bin', 'send_text_bytes', 'recv_text', 'recv_data', 'recv_media', 'raise403', 'raise_status', 'raise_value']
 CORE_OPS = ['accept', 'close', 'close999', 'send_text', 'send_media', 'recv_text', 'recv_data', 'raise403', 'raise_value']
 TERMINAL = {'raise403', 'raise_status', 'raise_value'}
 DOCUMENTED = {'OperationNotAllowed', 'WebSocketDisconnected', 'PayloadTypeError', 'TypeError', 'ValueError', 'OSError',
@@ -228,6 +228,8 @@ class Model:
                 ev['text'] = 'hello'
             elif name in ('send_data', 'send_data_buf'):
                 ev['bytes'] = b'\x00\xff'
+            elif name == 'send_media_bin':
+                ev['bytes'] = b'BIN'
             else:
                 ev['text'] = MEDIA_JSON
             self.events.append(ev)
@@ -370,6 +372,8 @@ async def run_script(ws, holder):
                 buf[1] = 0x42
             elif name == 'send_media':
                 r = await ws.send_media(MEDIA_OBJ)
+            elif name == 'send_media_bin':
+                r = await ws.send_media(MEDIA_OBJ, falcon.WebSocketPayloadType.BINARY)
             elif name == 'send_text_bytes':
                 r = await ws.send_text(b'x')
             elif name == 'recv_text':
